@@ -160,6 +160,11 @@ func (r *rawResponseWriter) finish(snapshotHeaders http.Header) {
 	case *conformancev1.RawHTTPResponse_Stream:
 		_ = internal.WriteRawStreamContents(contents.Stream, r.respWriter)
 	}
+	// The headers are on the wire by now. Values still in the map under a name
+	// that was declared as a trailer above would be sent again as trailers.
+	for _, hdr := range resp.Trailers {
+		r.respWriter.Header().Del(hdr.Name)
+	}
 	internal.AddTrailers(resp.Trailers, r.respWriter.Header())
 }
 
